@@ -146,6 +146,18 @@ def run(tier):
                       'raised': raised[:3],
                       'first_bad_event': next((e for j, e in enumerate(r['events'], 1)
                                                if any(c.endswith(f'@{j}') for c in mine)), None)})
+    def _corrupt(r):
+        if not r['complete'] or r['id'] in rej or len(r['events']) < 3 or r['n'] < 4:
+            return None
+        e = r['events'][2]
+        if e['kind'] != 'decode' or e['raised']:
+            return None
+        cx = e['corr']['x']
+        e['corr']['x'] = cx[1:] if cx else [0]
+        r['events'] = r['events'][:3]
+        return r
+    common.binding_selftest('c05', 'DecoderContract', recs, _corrupt,
+                            evaluator=lambda rr: D.eval_traces(rr, 'c05-selftest', shards=1))
     rc = v.finish()
     n_dec = sum(1 for r in recs for e in r['events'] if e['kind'] == 'decode')
     by_dec = {}
